@@ -459,6 +459,15 @@ func runProperty(rc runConfig, prop *Property) int {
 			}
 		}
 	}
+	var corpus map[string]any
+	if rc.tier == "thorough" {
+		corpus = corpusAll(rc.verifDir, rc.repoDir, prop)
+		if pr, _ := corpus["problems"].([]string); len(pr) > 0 {
+			for _, p := range pr {
+				fmt.Println("CORPUS-NOTE (seeded/benign corpus, not a property verdict):", p)
+			}
+		}
+	}
 	ev := Evidence{
 		PropertyID: prop.ID, Tier: rc.tier, Seed: rc.seed, Level: "other",
 		Coverage: map[string]any{
@@ -480,6 +489,9 @@ func runProperty(rc runConfig, prop *Property) int {
 	}
 	if selftest != nil {
 		ev.Coverage["checker_self_validation"] = selftest
+	}
+	if corpus != nil {
+		ev.Coverage["seeded_and_benign_corpus"] = corpus
 	}
 	b, _ := json.MarshalIndent(ev, "", " ")
 	evPath := filepath.Join(rc.outDir, prop.ID+".json")
